@@ -10,6 +10,7 @@ Generated/DocPrecedence.lean).  The evaluation half of C02 is in Props/C02Eval.l
 import TeraModel.Spec.Precedence
 import TeraModel.Lemmas.ParseDoc
 import TeraModel.Lemmas.Canon
+import TeraModel.Lemmas.ParseTotal
 namespace Tera.C02
 open Tera Tera.Parser Tera.Spec
 
@@ -76,6 +77,28 @@ example : ¬ TableOK docLevels
      genTable.unary, genTable.ternary⟩ := by
   unfold TableOK; decide +kernel
 
+
+/-! ## The model is total
+
+The model has two outcomes the Rust does not have as results: `fuel` (a loop of the model ran out
+of its iteration budget) and `panic` (the `expect("to have an expr")` of `parse_subscript`).
+Neither can come out, on ANY token list, for any binding-power table, limits and depth: every
+successful sub-parse leaves no more tokens than it was given and every loop consumes at least one
+token per iteration (so the budget `tokens + 1` suffices), and a subscript without a start
+expression is always a slice.  So the model answers `ok ast` or `err`, exactly the two results
+`Parser::parse` has. -/
+
+/-- **Totality / no panic**: for every configuration and every token list (well-formed or not),
+the expression parser model returns `ok` or `err`. -/
+theorem C02_model_total (C : Cfg) (maxDepth depth : Nat) (toks : List Tok) :
+    (∃ e s, parseExpression C maxDepth depth toks = .ok e s)
+      ∨ parseExpression C maxDepth depth toks = .err := by
+  have h := parseExpression_total C maxDepth depth toks
+  cases hr : parseExpression C maxDepth depth toks with
+  | ok e s => exact Or.inl ⟨e, s, rfl⟩
+  | err => exact Or.inr rfl
+  | panic m => exact absurd hr (h.2 m)
+  | fuel => exact absurd hr h.1
 
 /-! ## parse ∘ print
 
